@@ -172,9 +172,22 @@ Definition entry_admits_other (U : list cand) (ps : list opkg) : bool :=
    conflict entry "!x" (the resolver applies "!x" when the excluding package is
    expanded; a package chosen BEFORE stays in the list) — inside the envelopes of
    c09_fixpoint_resolver_partial, see c09_fixpoint_resolver_refuted *)
+(* ... "excluded" as disqualifyProviders computes it: what filterPackages lets through for the constraint after the "!"
+   (Model/Lock.filter_for on the members — the own version OR ANY provides entry, of whatever name, may pass the version
+   test: n1-1.0-r0 with `provides n5=2.0-r0` is excluded by its own `!n1>=2.0-r0`); this is hypothesis
+   no_member_excluded of c09_fixpoint_resolver_partial, negated, on the observed origin *)
+Definition cand_of_opkg (q : opkg) : cand :=
+  {| k_name := p_name (q_pkg q); k_version := p_version (q_pkg q); k_provides := p_provides (q_pkg q);
+     k_deps := q_deps q; k_pinned := ""; k_dq := false |}.
 Definition member_excluded_by_member (ps : list opkg) : bool :=
   existsb (fun q => existsb (fun d => match d with
-                                      | String "!" rest => dep_satisfied ps rest
+                                      | String "!" rest =>
+                                          dep_satisfied ps rest ||
+                                          let c := resolve_constraint rest in
+                                          match filter_for c (cands_of (List.map cand_of_opkg ps) (c_name c)) with
+                                          | [] => false
+                                          | _ => true
+                                          end
                                       | _ => false
                                       end) (q_deps q)) ps.
 
